@@ -158,6 +158,11 @@ func runC07(c *ShardCtx) {
 				// exactly the blind spot of finding D22
 				known = "choice-blind-nullable"
 			}
+			if !an.HasCycle() && g.Has(peg.KThrow) && peg.AnalyzeThrowAware(g).HasCycle() {
+				// no cycle in the first-call graph, but one once a throw is taken to reach
+				// the recovery expressions listing its label: finding D26
+				known = "throw-handler-cycle"
+			}
 			c.Report(Violation{Desc: "left recursion not detected: accepted without -support-left-recursion but rule re-entered at " + witness + detail, Grammar: text, Input: string(witnessIn), InputHex: hexOf(witnessIn)}, known)
 			return
 		}
